@@ -24,8 +24,8 @@ CLAIMED = {
     "C09": dict(category="other", technique='contract-based deductive verification: sidecar contracts on the real functions, VCs generated from /repo source by pyvc (loop invariants, ghost lemmas, callee contracts), discharged by z3' + " (arraymap included; structural label/option helpers assumed); " + 'run-time contracts of the property evaluated on the real functions over enumerated / seeded bounded domains against oracles written from the property statement (bounded stand-in, never counted as proved)',
         text="Proved (modulo the assumed structural label/option contracts): assemble -- arraymap new/get/set (the trie with growth and flush, against a concrete path specification and a tree-ness invariant), cached wrappers, base_step, interval_step, both compound_steps, chain_swap_step and _denovo_assembler: every likelihood recorded in the cold trace equals LLK of the recorded genotype for every move sequence, temperature ladder and cache state. call -- log_likelihood_alleles_cached over the numba dict (coherence via injectivity of the G-field index and permutation invariance of the likelihood), gibbs_options, mh_options, compound_step, mcmc_sampler: every recorded likelihood equals LLKA of the recorded sorted genotype. pedigree -- log_likelihood_alleles_cached, gibbs_probabilities, metropolis_hastings_probabilities, allele_step, sample_step, compound_step and pair_allele_swap_step keep every cached value equal to the likelihood of the owning sample's own reads (the fixed defect F3 is a failing obligation). Bounded: arraymap on exhaustive operation sequences (growth, flush) vs a dict model; recorded llk == recomputed llk for assemble, call and every entry of a caller-supplied pedigree cache; cache on/off same trajectory.",
         design_ref="DESIGN.md 4 (C09)", note=BASE_NOTE + "Assumed (R-checked) contracts: structural.haplotype_segment_labels and the four step-option helpers (shapes / ranges), pedigree markov_blanket_log_allele_probability (abstract result); POSREADS: all likelihoods the sampler can meet are finite."),
-    "C01": dict(category="other", technique='run-time contracts of the property evaluated on the real functions over enumerated / seeded bounded domains against oracles written from the property statement (bounded stand-in, never counted as proved)' + "; " + 'contract-based deductive verification: sidecar contracts on the real functions, VCs generated from /repo source by pyvc (loop invariants, ghost lemmas, callee contracts), discharged by z3' + " for base_step and the prior closed forms",
-        text="Bounded, exhaustive: for all ordered genotypes of small instances (ploidy<=4, <=3 SNVs, bi/tri-allelic, gaps, counts) x inbreeding {0,.3} x inverse temperature {1,.6}: base_step and interval_step probability vectors captured from the real kernels satisfy detailed balance w.r.t. (lik x prior)^t over unordered genotypes and depend on the genotype only as a multiset; exchange acceptance formula and state swap; orchestration arguments. Proved: base_step hands random_choice exactly the closed-form Metropolis-Hastings kernel exp(min(0, temp x (dllk + dlprior) + log(copies after/before)))/(n-1) with the prior a function of the genotype's haplotype dosage (get_haplotype_dosage strong contract); chain_swap_step accepts with min(1, exp((U_j-U_i)(T_i-T_j))) and that acceptance is in detailed balance for the product of tempered targets (lemma); base_step / interval_step vectors are probability distributions with the stated frames, _denovo_assembler keeps llks[t] == LLK(genotypes[t]) for every chain, assemble prior == (Dirichlet-)multinomial closed form.",
+    "C01": dict(category="other", technique='run-time contracts of the property evaluated on the real functions over enumerated / seeded bounded domains against oracles written from the property statement (bounded stand-in, never counted as proved)' + "; " + 'contract-based deductive verification: sidecar contracts on the real functions, VCs generated from /repo source by pyvc (loop invariants, ghost lemmas, callee contracts), discharged by z3' + " for base_step, interval_step, the exchange step and the prior closed forms",
+        text="Bounded, exhaustive: for all ordered genotypes of small instances (ploidy<=4, <=3 SNVs, bi/tri-allelic, gaps, counts) x inbreeding {0,.3} x inverse temperature {1,.6}: base_step and interval_step probability vectors captured from the real kernels satisfy detailed balance w.r.t. (lik x prior)^t over unordered genotypes and depend on the genotype only as a multiset; exchange acceptance formula and state swap; orchestration arguments. Proved: base_step hands random_choice exactly the closed-form Metropolis-Hastings kernel exp(min(0, temp x (dllk + dlprior) + log(copies after/before)))/(n-1) with the prior a function of the genotype's haplotype dosage (get_haplotype_dosage strong contract); interval_step hands it exp(min(0, temp x (dllk + dlprior) + log(1/n_back) - log(1/n_options)))/n_options for every structural option (n_back: abstract result of the assumed option-count helper); chain_swap_step accepts with min(1, exp((U_j-U_i)(T_i-T_j))) and that acceptance is in detailed balance for the product of tempered targets (lemma); base_step / interval_step vectors are probability distributions with the stated frames, _denovo_assembler keeps llks[t] == LLK(genotypes[t]) for every chain, assemble prior == (Dirichlet-)multinomial closed form.",
         design_ref="DESIGN.md 4 (C01)", note=BASE_NOTE + "Detailed balance per move => stationarity is mathematics outside the check (A6)."),
     "C02": dict(category="other", technique='contract-based deductive verification: sidecar contracts on the real functions, VCs generated from /repo source by pyvc (loop invariants, ghost lemmas, callee contracts), discharged by z3' + "; " + 'run-time contracts of the property evaluated on the real functions over enumerated / seeded bounded domains against oracles written from the property statement (bounded stand-in, never counted as proved)',
         text="Proved for all inputs in the stated domain: gibbs_options gives allele a probability proportional to exp(LLKA(g[k:=a])) x the Polya-urn conditional of copy k ((alpha_a + copies among the others)/(sum alpha + P - 1); the frequency when F = 0), sums to one, restores the genotype; mh_options returns the closed-form Metropolis-Hastings vector (uniform proposal over the other alleles, acceptance min(1, posterior ratio x copies ratio)) summing to one; normalise_log_probs / sum_log_probs / add_log_prob; compound_step resamples every copy once. Lemmas over those closed forms: the Polya-urn conditional is the exact conditional of the joint prior of the ordered allele vector (flat and with frequencies), hence the Gibbs vector is the exact full conditional of lik x prior / permutations; the MH vector satisfies detailed balance for the same target (permutation-count ratio via allele-indexed sums). Left to mathematics outside (A6): detailed balance => stationarity, projection to unordered genotypes. Bounded, exhaustive on small instances: the same identities numerically, zero-frequency alleles, single allele, 70 haplotypes.",
